@@ -12,7 +12,7 @@ def load():
     p = os.path.join(REPO, PATH)
     with open(p) as fh:
         src = fh.read()
-    out = {"aliases": {}, "literals": set(), "ops": {}}
+    out = {"aliases": {}, "literals": set(), "ops": {}, "regex": {}}
     m = re.search(r"\nmatch\s*\{(.*?)\n\}\n", src, re.S)
     if m:
         body = m.group(1)
@@ -21,6 +21,10 @@ def load():
             mm = re.match(r'"((?:[^"\\]|\\.)*)"\s*=>\s*([A-Z_]+)\s*,?$', line)
             if mm:
                 out["aliases"][mm.group(2)] = mm.group(1)
+                continue
+            mm = re.match(r'r"((?:[^"\\]|\\.)*)"\s*=>\s*([A-Z_]+)\s*,?$', line)
+            if mm:
+                out["regex"][mm.group(2)] = mm.group(1)
                 continue
             if line.startswith('r"') or line.startswith('r#'):
                 continue
